@@ -7,6 +7,7 @@
 //         observer  task_scheduler_observer on task_arena(2,1): entry/exit pairing per thread
 //         isolate   a thread waiting inside this_task_arena::isolate runs only tasks of its own isolation scope
 //         gc        global_control limit L (1..2) created before the work starts: at most L-1 workers run user work
+//         full_arena  A(2,0) filled by two application threads + pending spawn; B.enqueue must get the only worker
 //         gc_isolate / gc_resume   the budget at the 'wakeup' sites (isolation skip, task::resume)      isolate_nested   nested isolate scopes
 // -p L=2
 #include <oneapi/tbb/task_group.h>
